@@ -20,22 +20,24 @@ Theorem C01_matrix_proper_orthogonal : forall q : quat, qnorm2 ROps q = 1 ->
 Proof. intros q H; split; [apply qu2om_orthogonal | apply qu2om_det]; exact H. Qed.
 Print Assumptions C01_matrix_proper_orthogonal.
 
-(* FULL clause: forall unit q, om2qu (qu2om q) = +-q.  Proved for scalar part
-   <> 0 and no component inside the band om2qu zeroes (4x^2 < 1e-9); the
-   remaining stratum contains genuine failures, see _refuted below. *)
-Theorem C01_matrix_roundtrip_partial : forall q : quat,
+(* FULL clause (after repair 86e5199 of the 180-degree case): forall unit q with no
+   component inside the band om2qu zeroes (4x^2 < 1e-9), om2qu (qu2om q) = +-q --
+   both hemispheres AND rotations by exactly 180 degrees, where the signs are
+   taken from the symmetric part of the matrix *)
+Theorem C01_matrix_roundtrip : forall q : quat,
   qnorm2 ROps q = 1 ->
   (let '(a, b, c, d) := q in
-   a <> 0 /\ clear_of_band a /\ clear_of_band b /\ clear_of_band c /\ clear_of_band d) ->
+   clear_of_band a /\ clear_of_band b /\ clear_of_band c /\ clear_of_band d) ->
   om2qu ROps (qu2om ROps q) = q \/ om2qu ROps (qu2om ROps q) = qneg ROps q.
 Proof. exact om2qu_qu2om. Qed.
-Print Assumptions C01_matrix_roundtrip_partial.
+Print Assumptions C01_matrix_roundtrip.
 
-Theorem C01_matrix_roundtrip_pi_refuted :
-  exists q : quat, qnorm2 ROps q = 1 /\
-    om2qu ROps (qu2om ROps q) <> q /\ om2qu ROps (qu2om ROps q) <> qneg ROps q.
-Proof. exact om2qu_qu2om_pi_refuted. Qed.
-Print Assumptions C01_matrix_roundtrip_pi_refuted.
+(* the generated kernel is convertible to a structured specification
+   (Proofs/ConvMatrix.om2qu_spec): any change of the kernel breaks this *)
+Theorem C01_matrix_kernel_is_spec : forall m00 m01 m02 m10 m11 m12 m20 m21 m22 : R,
+  om2qu_single ROps m00 m01 m02 m10 m11 m12 m20 m21 m22 = om2qu_spec m00 m01 m02 m10 m11 m12 m20 m21 m22.
+Proof. exact om2qu_is_spec. Qed.
+Print Assumptions C01_matrix_kernel_is_spec.
 
 (* -- Bunge Euler angles ------------------------------------------------------ *)
 (* every Euler triplet gives a unit quaternion with non-negative scalar part
@@ -158,10 +160,11 @@ Print Assumptions C01_rodrigues_roundtrip_partial.
 
 (* non-vacuity of the guards: q = (1/2,1/2,1/2,1/2) *)
 Example C01_guards_nonvacuous :
-  qnorm2 ROps (1/2, 1/2, 1/2, 1/2) = 1 /\ clear_of_band (1/2) /\ 1 / 1000000000 <= chi (1/2) (1/2) (1/2) (1/2).
+  qnorm2 ROps (1/2, 1/2, 1/2, 1/2) = 1 /\ clear_of_band (1/2) /\ clear_of_band 0 /\ 1 / 1000000000 <= chi (1/2) (1/2) (1/2) (1/2).
 Proof.
-  split; [unfold qnorm2; rsimpl; field|]. split.
+  split; [unfold qnorm2; rsimpl; field|]. split; [|split].
   - unfold clear_of_band, eps9. intros H. exfalso. lra.
+  - unfold clear_of_band. intros _. reflexivity.
   - unfold chi. replace ((1 / 2 * (1 / 2) + 1 / 2 * (1 / 2)) * (1 / 2 * (1 / 2) + 1 / 2 * (1 / 2))) with ((1/2) * (1/2)) by field.
     rewrite sqrt_square by lra. lra.
 Qed.
